@@ -40,6 +40,9 @@ pub enum Layout<'a, 'b> {
     Literal,
     /// Pointer decisions drawn from the choice source.
     Random(&'a mut Src<'b>),
+    /// Always point, as early in the name as possible, at the candidate with the longest
+    /// chain: repeated names build pointer->pointer ladders up to the limit of 16.
+    Deepest,
 }
 
 pub struct Encoder<'a, 'b> {
@@ -87,6 +90,22 @@ impl<'a, 'b> Encoder<'a, 'b> {
                             let j = src.below(cands.len());
                             chosen = Some((i, cands[j].clone()));
                         }
+                        break;
+                    }
+                }
+            }
+        }
+        if may_compress && n > 0 {
+            if let Layout::Deepest = self.layout {
+                for i in 0..n {
+                    let suffix = &name.0[i..];
+                    let best = self
+                        .table
+                        .iter()
+                        .filter(|sp| sp.off < name_start && sp.off < 0x4000 && sp.depth + 1 <= 16 && sp.labels.len() == suffix.len() && sp.labels.iter().zip(suffix.iter()).all(|(a, b)| a == b))
+                        .max_by_key(|sp| (sp.depth, sp.off));
+                    if let Some(sp) = best {
+                        chosen = Some((i, sp.clone()));
                         break;
                     }
                 }
@@ -180,7 +199,7 @@ pub fn encode(msg: &Message, layout: Layout) -> Encoded {
     e.out.extend_from_slice(&(msg.an.len() as u16).to_be_bytes());
     e.out.extend_from_slice(&(msg.ns.len() as u16).to_be_bytes());
     e.out.extend_from_slice(&(msg.ar.len() as u16).to_be_bytes());
-    if let Layout::Random(_) = e.layout {
+    if !matches!(e.layout, Layout::Literal) {
         e.table = header_targets(&e.out[..12]);
     }
     let mut enc = Encoded::default();
